@@ -238,14 +238,23 @@ func vxC07Encode(e *json.Encoder, v any) error {
 	return nil
 }
 
-func vxC07Timestamp(_ context.Context, _ *slog.Logger, str string) int64 {
+func vxC07Timestamp(ctx context.Context, logger *slog.Logger, str string) int64 {
 	if len(str) == 0 {
 		return 0
+	}
+	if str[0] == '{' {
+		// a real line (vxC07RoundTrip): the real function
+		return readQLogTimestamp(ctx, logger, str)
 	}
 	return int64(str[0])
 }
 
 func vxC07Decode(l *queryLog, ctx context.Context, ent *logEntry, str string) {
+	if len(str) > 0 && str[0] == '{' {
+		// a real line (vxC07RoundTrip): the real decoder
+		l.decodeLogEntry(ctx, ent, str)
+		return
+	}
 	if len(str) != 2 {
 		vx.Fail("harness: mis-framed line handed to the decoder")
 		return
